@@ -2116,7 +2116,10 @@ class StateEngine(object):
             asl_state_Task_delegate when any retry timeout has expired.
             """
             retry_timeout = context["State"].get("RetryTimeout", 0)
-            self.event_dispatcher.set_timeout(asl_state_Task_delegate, retry_timeout)
+            if retry_timeout:
+                self.event_dispatcher.set_timeout(asl_state_Task_delegate, retry_timeout)
+            else:
+                asl_state_Task_delegate()
 
         def asl_state_Choice():
             """
@@ -2750,7 +2753,10 @@ class StateEngine(object):
             asl_state_Parallel_delegate when any retry timeout has expired.
             """
             retry_timeout = context["State"].get("RetryTimeout", 0)
-            self.event_dispatcher.set_timeout(asl_state_Parallel_delegate, retry_timeout)
+            if retry_timeout:
+                self.event_dispatcher.set_timeout(asl_state_Parallel_delegate, retry_timeout)
+            else:
+                asl_state_Parallel_delegate()
 
         def get_start_index(context):
             """
@@ -3068,7 +3074,10 @@ class StateEngine(object):
             else:
                 retry_timeout = 0
             
-            self.event_dispatcher.set_timeout(asl_state_Map_delegate, retry_timeout)
+            if retry_timeout:
+                self.event_dispatcher.set_timeout(asl_state_Map_delegate, retry_timeout)
+            else:
+                asl_state_Map_delegate()
 
         def asl_state_collect_results(state_type):
             """
